@@ -141,3 +141,14 @@ chk("C17", "exploration", "property-based testing (Hypothesis): generated shows 
     "entry, coil or running instance of the show remains. Search, not proof.",
     "Lateness <= 4 ms; requests closer than 2J to a step instant are skipped; one live instance per show so markers can be attributed.",
     "DESIGN.md §4 C17")
+chk("C14", "fault_enumeration", "property-based testing (Hypothesis): generated frame/noise/corruption streams with a metamorphic chunking relation and an independent CRC; scripted-board schedules for flow control",
+    "OPP (firmware-2 mock rig) and FAST Neuron (mock rig) decoders are fed generated streams of valid switch reports, "
+    "full-state reports, ignored messages, line noise and (OPP) frames with corrupted payload/CRC bytes, whole and split "
+    "at generated points down to single bytes: decoded messages and final switch states must not depend on the "
+    "splitting, corrupted frames (CRC recomputed bitwise, independently) and noise must change nothing and decoding must "
+    "resume, and states must equal the last report per board (NO/NC). PKONE framing is checked on a bare communicator. "
+    "FAST flow control runs a scripted board with generated latencies, unrelated messages and a lost response: write "
+    "order, nothing written before the awaited confirmation (known finding), retry on loss (known finding), queue not "
+    "blocked. Search over faults, not proof.",
+    "PKONE's mock rig does not boot on the pinned tree (baseline failure) so only its framing is covered; ASCII protocols have no integrity field; two FAST flow-control defects are listed as known findings.",
+    "DESIGN.md §4 C14")
